@@ -4,6 +4,7 @@
 mod gen;
 mod kinops;
 mod props_kin;
+mod props_misc;
 
 fn main() {
     // panics inside the library are outcomes; keep stderr quiet
@@ -19,6 +20,14 @@ fn main() {
     match prop {
         "C03" => props_kin::c03(seed, n),
         "C01" => props_kin::c01(seed, n),
+        "C02" => props_kin::c02(seed, n),
+        "C04" => props_kin::c04(seed, n),
+        "C05" => props_kin::c05(seed, n),
+        "C06" => props_kin::c06(seed, n),
+        "C08" => props_kin::c08(seed, n),
+        "C09" => props_kin::c09(seed, n),
+        "C16" => props_kin::c16(seed, n),
+        "C07" => props_misc::c07(seed, n),
         "consts" => props_kin::consts(),
         _ => { eprintln!("unknown property {}", prop); std::process::exit(2); }
     }
